@@ -1118,9 +1118,18 @@ class Run:
         ctx = {'step': step}
         try:
             if exc is None:
+                undetectable = False
                 if how.startswith('flip'):
-                    # e.g. a flipped bit in a header field gzip ignores: the
-                    # file is still a valid cache; nothing to check
+                    # a flipped bit in a header field that gzip ignores leaves
+                    # a valid cache with the same content: nothing to refuse.
+                    # Decided independently of the library: the corrupted
+                    # bytes still decompress to the original JSON text.
+                    try:
+                        undetectable = _gz.decompress(new) == \
+                            _gz.decompress(data)
+                    except Exception:
+                        undetectable = False
+                if undetectable:
                     self.probe('corruption-not-detectable')
                     return
                 raise Violation(['C15'], 'O-untouched', 'not-refused',
